@@ -42,6 +42,8 @@ type Case struct {
 	From   string   `json:"from"`             // own | foreign
 	Answer string   `json:"answer,omitempty"` // client: answer section description
 	Codec  string   `json:"codec,omitempty"`
+	// Additional: records in the additional section of the query (server): "" | tsig | edns0 | tsig+edns0
+	Additional string `json:"additional,omitempty"`
 }
 
 type fakeWriter struct {
@@ -212,6 +214,13 @@ func evalServer(r *mc.Run, c Case) {
 		r.State(mc.Hash("server", "unpack-refused"))
 		return // the real server answers FORMERR / drops it before the handler
 	}
+	if strings.Contains(c.Additional, "edns0") {
+		m.SetEdns0(4096, false)
+	}
+	if strings.Contains(c.Additional, "tsig") {
+		// a signed query (as `dig -y` or nsupdate send it); the server has no key configured
+		m.SetTsig("axfr.", dns.HmacMD5, 300, time.Now().Unix())
+	}
 	from := net.Addr(foreign)
 	if c.From == "own" {
 		from = ownAddr
@@ -231,6 +240,9 @@ func evalServer(r *mc.Run, c Case) {
 		nameStr = nameStr[:100] + "..."
 	}
 	desc := fmt.Sprintf("question %s type %d class %d (+%d questions) from %s address [%s]", nameStr, c.QType, c.QClass, len(c.Extra), c.From, c.Origin)
+	if c.Additional != "" {
+		desc += " additional section: " + c.Additional
+	}
 	outcome := "answered"
 	switch {
 	case pan != "":
@@ -821,6 +833,29 @@ func serverCases(thorough bool) []Case {
 		for _, cl := range []uint16{1, 3, 255} {
 			out = append(out, Case{Side: "server", Labels: append([][]byte{[]byte("cabc00aaaaaaaa")}, dl...), QType: qt, QClass: cl, Origin: "qtype-sweep", From: "foreign"})
 			out = append(out, Case{Side: "server", Labels: append([][]byte{[]byte("yabcT")}, dl...), QType: qt, QClass: cl, Origin: "qtype-sweep", From: "own"})
+		}
+	}
+	// the same messages with records in the additional section (a TSIG signature, an EDNS0 OPT
+	// record): every case whose question is short (the malformed and the boundary headers), and a
+	// sample of the others
+	n := len(out)
+	for i := 0; i < n; i++ {
+		c := out[i]
+		total := 0
+		for _, l := range c.Labels {
+			total += len(l)
+		}
+		if total > 40 && i%17 != 0 {
+			continue
+		}
+		for _, a := range []string{"tsig", "edns0", "tsig+edns0"} {
+			if a != "tsig" && i%5 != 0 {
+				continue
+			}
+			d := c
+			d.Additional = a
+			d.Origin = c.Origin + "+" + a
+			out = append(out, d)
 		}
 	}
 	return out
